@@ -364,3 +364,31 @@ fn e2e_remove_shared() {
     core::mem::forget(s);
 }
 
+
+// ---------------------------------------------------------------------------------------
+// fmt::Write::write_str (what `write!` and the generic to_lean_string fallback go through)
+// ---------------------------------------------------------------------------------------
+
+// @harness name=e2e_write_str_inline props=C01,C05,C15 class=U tier=quick fn=fmt::Write::write_str expect_fail="do_panic_with_msg" covers=write_str.ok
+#[kani::proof]
+#[kani::stub(alloc::alloc::alloc, v_alloc)]
+#[kani::stub(alloc::alloc::dealloc, v_dealloc)]
+#[kani::stub(alloc::alloc::realloc, v_realloc)]
+fn e2e_write_str_inline() {
+    use core::fmt::Write;
+    arm_covers();
+    unsafe { A_FAIL = true };
+    let (r, g) = any_inline();
+    let f = Frame::snapshot(&r, &g);
+    let mut s = LeanString(r);
+    let (a, ap, n) = any_str(EARG);
+    let pr = probe_arg(ap, n);
+    let res = s.write_str(a);
+    // reached only if write_str returned: an allocation failure is a panic (C05), never an
+    // fmt::Error - `Err(Fmt)` is reserved for a Display impl that reports an error (C15)
+    obl!(res.is_ok(), "write_str.never_turns_allocation_failure_into_fmt_error", "C05,C15");
+    obl!(unsafe { A_REFUSED == 0 }, "write_str.returns_only_if_nothing_was_refused", "C05");
+    cov!(true, "write_str.ok");
+    append_post(&s.0, &f, g.len, ap, n, &pr, Ok(()));
+    core::mem::forget(s);
+}
